@@ -92,7 +92,7 @@ func families() []string {
 		json.Unmarshal([]byte(f), &r)
 		return r
 	}
-	return []string{"syntax", "esc", "f1", "f2", "f3", "f4", "f5", "f6", "strm", "repl", "bytes", "hist", "xlate", "judge"}
+	return []string{"syntax", "esc", "f1", "f2", "f3", "f4", "f5", "f6", "strm", "repl", "replfn", "bytes", "hist", "xlate", "judge"}
 }
 
 func genFamilies() []string {
@@ -114,6 +114,15 @@ func sameOutcome(got, want any) bool {
 	case map[string]any:
 		g, ok := got.(map[string]any)
 		if !ok {
+			return false
+		}
+		if w["t"] == "anyof" { // the outcomes under several sets of open deviations (spec/C10H.tla)
+			alts, _ := w["alts"].([]any)
+			for _, a := range alts {
+				if sameOutcome(got, a) {
+					return true
+				}
+			}
 			return false
 		}
 		if w["t"] == "frame" {
@@ -263,8 +272,8 @@ var SpecH = &gen.Spec{
 	Runs: func(c *core.Ctx) []gen.RunCfg {
 		depth := 3
 		hcfg := func(maxLen int, props bool) string {
-			s := fmt.Sprintf("CONSTANTS\n OpenDev = %s\n Tier = %q\n MaxLen = %d\nINIT Init\nNEXT Next\nVIEW View\nCHECK_DEADLOCK FALSE\n",
-				core.TLASet(c.Findings.OpenIDs()), c.Tier, maxLen)
+			s := fmt.Sprintf("CONSTANTS\n OpenDev = %s\n C10Dev = %s\n Tier = %q\n MaxLen = %d\nINIT Init\nNEXT Next\nVIEW View\nCHECK_DEADLOCK FALSE\n",
+				core.TLASet(c.Findings.OpenIDs()), core.TLASet(ownOpen(c)), c.Tier, maxLen)
 			if props {
 				s += "INVARIANT LastIndexShape\nPROPERTIES NonGlobalNeverAdvances SearchSplitLeaveState\n"
 			}
@@ -282,6 +291,20 @@ var SpecH = &gen.Spec{
 				Opts: tlc.Opts{Workers: 4, Simulate: true, Num: n, Depth: d + 1, Seed: c.Seed}},
 		}
 	},
+}
+
+// ownOpen lists the open findings of this property (the deviations RegExpSpec.tla knows).
+func ownOpen(c *core.Ctx) []string {
+	var r []string
+	for _, f := range c.Findings.OpenFor(c.Property) {
+		r = append(r, f.ID)
+	}
+	if len(r) == 0 {
+		for _, f := range c.Findings.OpenFor("C10") { // private contexts (self-test) carry another property name
+			r = append(r, f.ID)
+		}
+	}
+	return r
 }
 
 func has(fams []string, f string) bool {
